@@ -174,6 +174,14 @@ def bed_case(rng, tier, want="roundtrip", kind=None, compress=None, zoom_mode=No
             for (s, e) in qs:
                 queries.append([0, nm, s, e]); hist.append([nm, s, e])
         rng.shuffle(hist)
+        # zoom queries in between the interval queries, on the same reader: a zoom query must not
+        # change what later interval queries answer (the reader remembers index offsets)
+        levels = [z for z in (o[5][0] if o[5] else [o[3], o[3] * 4]) if z > 0]
+        if levels and queries:
+            for _ in range(3):
+                nm = rng.choice(names)
+                queries.insert(rng.randrange(len(queries) + 1), [2, nm, 0, per[nm][1], rng.choice(levels)])
+            tags.append("zoom-between-intervals")
         queries.append([7, hist + hist[: len(hist) // 3]])
         queries.append([8])
     k = rng.choice([0, 0, 1]) if kind is None else kind
